@@ -18,8 +18,8 @@ package storage
 
 // (the routers map is protected by routersLock everywhere except in JSONFileStorage.Stop, which runs after every
 // module using the storage has stopped; the lock discipline is therefore not claimed here)
-// Records enter the storage through SaveRouter (verified identities only) or from the local state file, which is
-// trusted: NewJSONFileStorage is not under contract and the invariant is assumed for what it loads.
+// Records enter the storage through SaveRouter (verified identities only) or from the local state file, whose
+// records NewJSONFileStorage takes over only after the identity check (C01: "loaded from ... storage").
 //@ type MemStorage
 //@   invariant maps [C13]: self.routers != nil
 //@   invariant routers-by-address [C07]: forall ip netip.Addr :: has(self.routers, ip) ==> (self.routers[ip] != nil ==> self.routers[ip].Address != nil && self.routers[ip].Address.IP == ip && self.routers[ip].Address.verified)
@@ -39,3 +39,5 @@ package storage
 //@ func NewJSONFileStorage
 //@   callsite os.ReadFile reads-only-the-state-file [C18]: arg0 == filename
 //@   ensures maps-exist [C18,C20]: result1 == nil ==> result0 != nil && result0.MemStorage.routers != nil && result0.MemStorage.mappings != nil
+//@   invariant 1 only-verified-records-so-far [C01]: s != nil && s.MemStorage.routers != nil && (forall ip netip.Addr :: has(s.MemStorage.routers, ip) ==> s.MemStorage.routers[ip] != nil && s.MemStorage.routers[ip].Address != nil && s.MemStorage.routers[ip].Address.IP == ip && s.MemStorage.routers[ip].Address.verified)
+//@   ensures loaded-records-hold-verified-identities [C01]: result1 == nil ==> (forall ip netip.Addr :: has(result0.MemStorage.routers, ip) ==> result0.MemStorage.routers[ip] != nil && result0.MemStorage.routers[ip].Address != nil && result0.MemStorage.routers[ip].Address.IP == ip && result0.MemStorage.routers[ip].Address.verified)
